@@ -439,3 +439,11 @@ Proof.
     - rewrite Zplus_mod_idemp_l. rewrite IH. f_equal. ring. }
   specialize (H 0). rewrite Zmod_0_l in H. exact H.
 Qed.
+
+(* used by the non-vacuity examples *)
+Lemma prime_11 : prime 11.
+Proof.
+  apply prime_intro; [lia|]. intros n Hn. apply Zgcd_1_rel_prime.
+  assert (n = 1 \/ n = 2 \/ n = 3 \/ n = 4 \/ n = 5 \/ n = 6 \/ n = 7 \/ n = 8 \/ n = 9 \/ n = 10) as H by lia.
+  repeat (destruct H as [-> | H]; [reflexivity|]). subst. reflexivity.
+Qed.
